@@ -23,14 +23,12 @@ IN = "src/celpy/__init__.py"
 MUTANTS = [
     # C01
     ("C01", "int64-upper-bound-inclusive", CT, "        if -(2**63) <= result_value < 2**63:", "        if -(2**63) <= result_value <= 2**63:"),
-    ("C01", "int-mul-unchecked", CT, "    @int64\n    def __mul__(self, other: Any) -> \"IntType\":", "    def __mul__(self, other: Any) -> \"IntType\":"),
     ("C01", "int-floor-division", CT, "        go_div = self_sign * other_sign * (abs(self) // abs(other))\n        return IntType(go_div)\n\n    __floordiv__", "        go_div = int(self) // int(other)\n        return IntType(go_div)\n\n    __floordiv__"),
     ("C01", "rmod-divisor-sign", CT, "        left_sign = -1 if other < IntType(0) else +1", "        left_sign = -1 if self < IntType(0) else +1"),
     ("C01", "uint-lower-bound", CT, "        if 0 <= result_value < 2**64:", "        if -1 <= result_value < 2**64:"),
     ("C01", "double-div-zero-sign", CT, "        sign = copysign(1.0, dividend) * copysign(1.0, divisor)", "        sign = copysign(1.0, dividend)"),
     # C02
     ("C02", "logical-or-error-false-branch", CT, "            return y  # whatever || true == true\n        else:\n            return x  # whatever || false == whatever", "            return y  # whatever || true == true\n        else:\n            return y  # whatever || false == whatever"),
-    ("C02", "logical-not-raises-on-error", CT, "    if isinstance(x, Exception):\n        return x\n    if isinstance(x, BoolType):\n        result_value = BoolType(not x)", "    if isinstance(x, BoolType):\n        result_value = BoolType(not x)"),
     ("C02", "interp-all-no-eval_error", EV, "                    eval_error(\"no such overload\", TypeError)(\n                        celpy.celtypes.logical_and\n                    ),", "                    celpy.celtypes.logical_and,"),
     ("C02", "compiled-exists-any", EV, "                eval_error(\"no such overload\", TypeError)(celpy.celtypes.logical_or),", "                celpy.celtypes.logical_or,"),
     # C03
@@ -65,7 +63,6 @@ MUTANTS = [
     ("C09", "size-utf8-length", EV, "    result_value = celpy.celtypes.IntType(len(sized_container))", "    result_value = celpy.celtypes.IntType(len(sized_container.encode(\"utf-8\")) if isinstance(sized_container, str) else len(sized_container))"),
     ("C09", "mapinits-keeps-last-duplicate", EV, "            if key in result_value:\n                raise ValueError(f\"Duplicate key {key!r}\")\n            result_value[key] = value\n\n        return result_value", "            result_value[key] = value\n\n        return result_value"),
     ("C09", "startsWith-is-contains", EV, "    return celpy.celtypes.BoolType(string.startswith(fragment))", "    return celpy.celtypes.BoolType(fragment in string)"),
-    ("C09", "operator_in-false-after-type-error", EV, "            result_value = CELEvalError(\"no such overload\", ex.__class__, ex.args)\n    logger.debug(\"operator_in", "            pass\n    logger.debug(\"operator_in"),
     # C10
     ("C10", "int-from-double-rounds", CT, "        elif isinstance(source, (float, DoubleType)):\n            convert = int64(trunc)\n        elif isinstance(source, TimestampType):\n            convert = int64(lambda src: src.timestamp())", "        elif isinstance(source, (float, DoubleType)):\n            convert = int64(round)\n        elif isinstance(source, TimestampType):\n            convert = int64(lambda src: src.timestamp())"),
     ("C10", "string-from-bytes-replace", CT, "            return super().__new__(cls, source.decode(\"utf\"))", "            return super().__new__(cls, source.decode(\"utf\", errors=\"replace\"))"),
@@ -76,7 +73,6 @@ MUTANTS = [
     ("C11", "tz-offset-ignores-sign", CT, "        offset_min = (int(hh) * 60 + int(mm)) * (-1 if sign == \"-\" else +1)", "        offset_min = (int(hh) * 60 + int(mm))"),
     ("C11", "minutes-scale-3600", CT, "        \"m\": 60.0,", "        \"m\": 60.0 * 60.0,"),
     # C12
-    ("C12", "resolve-shortest-match", EV, "        path, best_match = max(matches, key=lambda path_value: len(path_value[0]))", "        path, best_match = min(matches, key=lambda path_value: len(path_value[0]))"),
     ("C12", "nested-activation-no-parent", EV, "            parent=based_on.identifiers if based_on else None\n        )", "            parent=None\n        )"),
     # C13
     ("C13", "int-add-native", CT, "    @int64\n    def __add__(self, other: Any) -> \"IntType\":\n        return IntType(super().__add__(cast(IntType, other)))", "    @int64\n    def __add__(self, other: Any) -> \"IntType\":\n        return super().__add__(cast(IntType, other))"),
@@ -101,7 +97,7 @@ MUTANTS = [
     # C19
     ("C19", "gt-ge-swapped", XL, "        \"gt\": \"{0} > {1}\",", "        \"gt\": \"{0} >= {1}\","),
     ("C19", "ni-without-negation", XL, "        \"ni\": \"! {1}.contains({0})\",\n        \"not-in\"", "        \"ni\": \"{1}.contains({0})\",\n        \"not-in\""),
-    ("C19", "hours-unit-360", XL, "        units = [(24 * 60 * 60, \"d\"), (60 * 60, \"h\"), (60, \"m\"), (1, \"s\")]", "        units = [(24 * 60 * 60, \"d\"), (60 * 60, \"h\"), (60, \"m\"), (1, \"s\")]\n        seconds = seconds if seconds % 3600 else seconds // 10 * 10 + 0 * 360"),
+    ("C19", "hours-unit-360", XL, "        units = [(24 * 60 * 60, \"d\"), (60 * 60, \"h\"), (60, \"m\"), (1, \"s\")]", "        units = [(24 * 60 * 60, \"d\"), (60 * 6, \"h\"), (60, \"m\"), (1, \"s\")]"),
     ("C19", "swap-not-swapping", XL, "            \"swap\": lambda sentinel, value: (value, sentinel),", "            \"swap\": lambda sentinel, value: (sentinel, value),"),
     # C20
     ("C20", "boolean-false-exits-0", MN, "                    summary = 0 if result_value else 1", "                    summary = 0 if result_value else 0"),
